@@ -93,8 +93,10 @@ def math_unit(ctx, src):
                       Rule(r'return (\w+);', r'{ GCD_ABS_RET(\1); return \1; }', count=None, regex=True)])
     u.function(src, MATH, r'constexpr std::pair<IntT, IntT> reduce_fraction\(IntT a, IntT b\)',
                new_header='PairT RF_NAME(IntT a, IntT b)',
-               rules=[Rule('IntT denom = gcd(a, b);', 'IntT denom = GCD_NAME(a, b); g_denom = denom;', count=1),
-                      Rule('make_pair(', 'MAKE_PAIR(', count=1)])
+               # (ghost g_denom: the value the gcd call returned, wherever it is bound; any number of return statements)
+               rules=[Rule(r'\b((?:const )?(?:IntT|auto) (\w+) = )gcd\(a, b\);', r'IntT \2 = GCD_NAME(a, b); g_denom = \2;', count=None, regex=True),
+                      Rule(r'(?<![\w.>])gcd\(a, b\)', 'GCD_NAME(a, b)', count=None, regex=True),
+                      Rule('make_pair(', 'MAKE_PAIR(', count='+')])
     u.function(src, MATH, r'constexpr IntT log2i\(IntT v\)', new_header='IntT LOG2I_NAME(IntT v)')
     u.write(suffix='.inc')
     return u
